@@ -86,7 +86,13 @@ def main():
         for k in range(jobs): sh(f"git -C /repo worktree remove --force {root}/repo{k}")
         sh("git -C /repo worktree prune"); shutil.rmtree(root, ignore_errors=True)
     results.sort(key=lambda r: r["name"])
-    json.dump(results, open(os.path.join(VERIF, "seeded", "suite_last.json"), "w"), indent=1)
+    if args:    # a partial run updates the entries it re-ran and keeps the others
+        try: old = {r["name"]: r for r in json.load(open(os.path.join(VERIF, "seeded", "suite_last.json")))}
+        except Exception: old = {}
+        old.update({r["name"]: r for r in results})
+        json.dump(sorted(old.values(), key=lambda r: r["name"]), open(os.path.join(VERIF, "seeded", "suite_last.json"), "w"), indent=1)
+    else:
+        json.dump(results, open(os.path.join(VERIF, "seeded", "suite_last.json"), "w"), indent=1)
     b = [r for r in results if r.get("kind") == "breaking"]; h = [r for r in results if r.get("kind") == "harmless"]
     print(f"breaking: {sum(r['ok'] for r in b)}/{len(b)} reported ({sum(bool(r.get('with_input')) for r in b)} with an input); "
           f"harmless: {sum(r['ok'] for r in h)}/{len(h)} silent")
